@@ -17,7 +17,9 @@ OpsNow == Cardinality({i \in 1..Len(hist) : hist[i].t = now /\ IsOp(hist[i].o)})
 (* once-job a reference stays remembered until Cancel or Clear; re-use therefore follows one of those)  *)
 GenNext == /\ ~Finished /\ Next
            /\ IsOp(out') => OpsNow < 2
-           /\ out'[1] = "sched" => (out'[8] /\ out'[3] \notin jobKeys[out'[2]])
+           /\ out'[1] = "sched" => \/ (out'[8] /\ out'[3] \notin jobKeys[out'[2]])
+                                    \* ... except on top of a queued loop job, where the outcome is certain: the call changes nothing
+                                    \/ (~out'[8] /\ \E j \in queue : j.key = KeyOf(out'[2], out'[3]) /\ j.kind = "loop")
            /\ hist' = Append(hist, [t |-> now, o |-> out'])
 Emit == Finished => PrintT("BEHAV " \o ToJson([paths |-> Paths, steps |-> hist]))
 =============================================================================
